@@ -17,6 +17,38 @@ def projection(s, conn):
     )
 
 
+COUNTS = re.compile(r"^\((\d+) matched, (\d+) didn't(?:, (\d+) not checked)?\)$")
+
+
+def listing_projection(s, conn):
+    """what `list` says for one connection when it is selected, and what `list NAME: <type>` selects: lines without times
+    and names, and the counts"""
+    name = conn.name()
+    out = {}
+    types = []
+    for l in conn.db.values():
+        for o in l:
+            if o.type and o.type not in types:
+                types.append(o.type)
+    cmds = [('selected-list', ['connection ' + name, 'list', 'list ~ 2', 'connection all'])]
+    for t in types[:3]:
+        cmds.append(('list-type-' + t, ['list %s: %s' % (name, t)]))
+    for key, cl in cmds:
+        n0 = len(s.out.buffer)
+        for c in cl:
+            s.ctl.process_command(c)
+        lines = s.out.buffer[n0:].split('\n')[:-1]
+        body = []
+        for l in lines:
+            mm = session.MSG_LINE.match(l)
+            if mm:
+                body.append(LIFE.sub(' after Ts', mm.group(3)))
+            elif COUNTS.match(l) and key == 'selected-list':
+                body.append(l)      # with a connection selected the counts are that connection's own; without, other connections' messages count as "didn't match"
+        out[key] = body
+    return out
+
+
 def model_projection(mc):
     return dict(
         role={'client': False, 'server': True}.get(mc.role),
@@ -143,6 +175,7 @@ class Isolation(Stage):
                     res.bad('connection-missing', mc.name)
                     continue
                 p[h['tag']] = projection(s, rc[0])
+                p[h['tag']]['listings'] = listing_projection(s, rc[0])
                 mp = model_projection(mc)
                 for k in ('count', 'table'):
                     if p[h['tag']][k] != mp[k]:
@@ -160,6 +193,7 @@ class Isolation(Stage):
                 res.bad('alone-run-connections', repr([c.name() for c in rc]))
                 continue
             pa = projection(s, rc[0])
+            pa['listings'] = listing_projection(s, rc[0])
             pa['open'] = None
             for oi, p in enumerate(projs):
                 pi = dict(p.get(h['tag'], {}))
